@@ -180,7 +180,7 @@ SStep(m, e) ==
     [] e.e = "Wiring" ->
          (* C19: type r: the descriptor is the child's stdout, its stdin and stderr are
             the null device; type w: the descriptor is its stdin, stdout and stderr null *)
-         Chk(m, TRUE, IF e.type = "r" THEN e.fd0 = "null" /\ e.fd1 = "pipe" /\ e.fd2 = "null"
+         Chk(m, "unknown" \notin {e.fd0, e.fd1, e.fd2}, IF e.type = "r" THEN e.fd0 = "null" /\ e.fd1 = "pipe" /\ e.fd2 = "null"
                       ELSE e.fd0 = "pipe" /\ e.fd1 = "null" /\ e.fd2 = "null", "C19:wiring")
     [] e.e = "Qui" -> SQuiesce(m)
     [] e.e = "End" -> SEnd(m, e)
